@@ -19,6 +19,10 @@ Trace events (one list per (program, simulation), merged by the parent), all dat
                                                           values at the site's cell (hour Method.HOUR)
   ["plancost", day, method, {site: site.get_survey_cost(method)}]   emitted before each deploy_crews
   ["repaircost", day, "program"|"natural", amount, emission_id]     increments of EmisInfo cost totals
+  ["fuflag", day, schedule_method, kind, site, rate, latest_detection_day, n_detected_rates, site_latest_tagging_day]
+                                                          precedes the outermost "fuq" of an insertion (C09)
+  ["fuqsnap", day, schedule_method, [[class, site, rate], ...]]     follow-up queue in pop order (from a copy)
+                                                          at the start of the follow-up schedule's get_workplan
 Events keep the order in which the simulator produced them.
 """
 from __future__ import annotations
@@ -204,6 +208,46 @@ def install_wrappers():
             return f
 
         setattr(FollowUpMobileSchedule, kind, mk(orig, kind))
+
+    # --- C09: provenance of follow-up queue insertions and queue snapshots (observation only) ----
+    _fu_nest = {"n": 0}
+    for kind in ("add_to_survey_queue", "add_unfinished_to_survey_queue", "add_previous_queued_to_survey_queue"):
+        inner = FollowUpMobileSchedule.__dict__.get(kind)
+        if inner is None:
+            continue
+
+        def mk2(inner, kind):
+            @functools.wraps(inner)
+            def g(self, survey_plan, *a, **k):
+                if _fu_nest["n"] == 0:
+                    try:
+                        EVENTS.append(["fuflag", CTXT["day"], getattr(self, "_method", None), kind,
+                                       str(survey_plan.site_id), getattr(survey_plan, "rate_at_site", None),
+                                       di(getattr(survey_plan, "_latest_detection_date", None)),
+                                       len(getattr(survey_plan, "_detected_rates", [])),
+                                       di(survey_plan._site.get_latest_tagging_survey_date())])
+                    except Exception:
+                        pass
+                _fu_nest["n"] += 1
+                try:
+                    return inner(self, survey_plan, *a, **k)
+                finally:
+                    _fu_nest["n"] -= 1
+            return g
+
+        setattr(FollowUpMobileSchedule, kind, mk2(inner, kind))
+
+    def fu_get_workplan(self, current_date):
+        try:
+            heap = sorted(self._survey_queue.queue, key=lambda e: (e[0], e[1]))
+            EVENTS.append(["fuqsnap", di(current_date), getattr(self, "_method", None),
+                           [[e[0][0], str(e[2].site_id), e[2].rate_at_site] for e in heap]])
+        except Exception:
+            pass
+        return GenericSchedule.get_workplan(self, current_date)
+
+    if "get_workplan" not in FollowUpMobileSchedule.__dict__:
+        FollowUpMobileSchedule.get_workplan = fu_get_workplan
 
     orig_upd = SiteLevelMethod.update
 
